@@ -1171,6 +1171,11 @@ class Analyzer:
                 tk = self.varkey(e[1])
                 if tk is not None and sx.kind(r) == 'bin' and r[1] in ('+', '-') and sx.key(sx.strip(r[2])) == sx.key(sx.strip_paren(e[1])):
                     self._pending_lin = self._lin_of(tk, r[1], r[3], st)
+                elif tk is not None and any(tk in c_ for c_ in self.ghosts.values()):
+                    # x = f(x) through clamps:  new - old = -(x_old - rhs), from the min/max structure of the right-hand side
+                    d_ = self._diff_of(tk, e[2], st)
+                    if d_ is not None and d_:
+                        self._pending_lin = ('const', neg(d_))
             if self.diffs and sx.kind(r) == 'bin' and r[1] in ('+', '-') and sx.key(sx.strip(r[2])) == sx.key(sx.strip_paren(e[1])):
                 d = self.ev(r[3], st)
                 self._pending_delta = d if r[1] == '+' else neg(d)
